@@ -46,14 +46,16 @@ def rowT (d : Doc) (cols : List Str) :
        | .t => rowT d cols cells (i + 1) cache ev
        | _ => [])
     | none =>
-      let k := cols.getD i []
-      match d.find k with
-      | none => [k]
-      | some v =>
-        let cache' := cacheSet cache i v
-        (match ev cache' e with
-         | .t => k :: rowT d cols cells (i + 1) cache' ev
-         | _ => [k])
+      match cols[i]? with
+      | none => []
+      | some k =>
+        match d.find k with
+        | none => [k]
+        | some v =>
+          let cache' := cacheSet cache i v
+          (match ev cache' e with
+           | .t => k :: rowT d cols cells (i + 1) cache' ev
+           | _ => [k])
 
 mutual
 def traceG (E : RegexEngine) (K : IdentK) (T : TraceK) (d : Doc) : Expr → List Str
